@@ -7,5 +7,5 @@ def chooseConfig : Scenic.Choose.Config :=
   { defaultWeight := 1, shortcutLen := 1, shortcutIdx := 0, dropZero := true,
     copyOperand := true }
 /-- functions whose statement-by-statement shape matched the model's template on this run (informational) -/
-def chooseMatchedShapes : List String := ["Invocable._runSubBehavior", "Invocable._invokeSubBehavior", "Invocable._isEnabledForAgent", "Options.__init__", "Options.makeSelector", "DiscreteRange.__init__", "DiscreteRange.sampleGiven", "MultiplexerDistribution.__init__", "MultiplexerDistribution.sampleGiven", "Uniform", "Distribution.__new__", "visit_DoShuffle", "makeDoLike"]
+def chooseMatchedShapes : List String := ["Invocable._runSubBehavior", "Invocable._invokeSubBehavior", "Invocable._isEnabledForAgent", "Options.__init__", "Options.makeSelector", "DiscreteRange.__init__", "DiscreteRange.sampleGiven", "MultiplexerDistribution.__init__", "MultiplexerDistribution.sampleGiven", "Uniform", "Distribution.__new__", "visit_DoChoose", "visit_DoShuffle", "makeDoLike"]
 end Scenic.Gen
